@@ -19,7 +19,7 @@ namespace sqf::runtime::verif
     {
         instr_begin,    // execute_do: frame::next() (incl. exit behaviours) ran, the fetched instruction is about to execute
         instr_done,     // execute_do: one instruction executed and its error handling finished
-        frame_done,     // execute_do: a completed frame was popped and its value re-pushed
+        frame_done,     // execute_do: a completed frame was popped and its value re-pushed (arg bit 0: it had a value, bit 1: it was a plain block)
         slice_begin,    // execute(start): a context is about to get a slice (or be skipped)
         slice_end,      // execute(start): the slice returned
         ctx_erase,      // execute(start): the active context was erased from the list
